@@ -582,6 +582,75 @@ def r07_6b(ctx, config="native"):
         ctx.ob("R07.6b", "end-mask", False, f.loc(), f"digit classifier not recognised: {ex} (fail closed)")
 
 
+def r07_9(ctx):
+    """the rounding window of the 64x64-bit fast path (parse_floating_normal_fast, after yyjson): with K = 64 - 53 bits
+    dropped at the end, the rounding bit is 1 << (K-1), the single product is accepted as exact only when the K-2 bits below
+    the rounding bit of the not-yet-normalised product are neither all zeros nor all ones (mask (1 << (K-2)) - 1, accepted
+    range 1 ..= mask - 1), and the carry test after rounding uses the rounding bit again"""
+    from ..intervals import Intervals
+    prog = ctx.prog()
+    f = prog.find("sonic_number::parse_floating_normal_fast")
+    iv = Intervals(f)
+
+    def exact(b, i, o):
+        v = iv.operand_at_stmt(b, i, o)
+        return v[0] if v and v[0] == v[1] else None
+
+    ands = []
+    for b, i, s in f.assigns():
+        rv = s["rv"]
+        if rv["k"] == "binop" and rv["op"] == "BitAnd" and rv["a"]["k"] != "const":
+            v = exact(b, i, rv["b"])
+            if v is not None:
+                ands.append((b, i, s, v))
+    # M: the mask whose result feeds wrapping_sub(_, 1); T: what that is compared with
+    M = T = R = K = Rc = None
+    ws = [(b, t) for b, t in f.calls() if callee_is(t, "wrapping_sub") and op_int(t["args"][1]) == 1]
+    for b, t in ws:
+        a = op_local(t["args"][0])
+        sl, leaves = backward_slice(f, [a]) if a is not None else (set(), [])
+        for ab, ai, as_, v in ands:
+            if as_["lhs"][0] in sl | {a}:
+                M = v
+        for cb, ci, cs in f.assigns():
+            rv = cs["rv"]
+            if rv["k"] == "binop" and rv["op"] == "Lt" and op_local(rv["a"]) is not None and f.src(op_local(rv["a"])) == ("call", b, t):
+                T = exact(cb, ci, rv["b"])
+    # R: the mask whose result is compared with 0 (the rounding bit)
+    for ab, ai, as_, v in ands:
+        for cb, ci, cs in f.assigns():
+            rv = cs["rv"]
+            if rv["k"] == "binop" and rv["op"] in ("Gt", "Ne") and op_int(rv["b"]) == 0 and op_local(rv["a"]) is not None:
+                sl, leaves = backward_slice(f, [op_local(rv["a"])])
+                if as_["lhs"][0] in sl and v not in (M,):
+                    R = v
+    # K: the final right shift of the product's high word by a computed amount
+    shr = [(b, i, s) for b, i, s in f.assigns() if s["rv"]["k"] == "binop" and s["rv"]["op"] == "Shr" and s["rv"]["b"]["k"] != "const"]
+    for b, i, s in shr:
+        v = exact(b, i, s["rv"]["b"])
+        if v is not None:
+            K = v
+    # Rc: the carry test `hi < 1 << (K-1)` after rounding: an Lt against an exact power of two other than 2^63
+    for b, i, s in f.assigns():
+        rv = s["rv"]
+        if rv["k"] == "binop" and rv["op"] == "Lt" and rv["b"]["k"] != "const":
+            v = exact(b, i, rv["b"])
+            if v is not None and v & (v - 1) == 0 and v not in (1 << 63,) and v > 2 and v != T:
+                Rc = v
+    found = all(x is not None for x in (M, T, R, K, Rc))
+    ctx.ob("R07.9", "window:anchors", found, f.loc(), f"sticky mask {M}, accepted upper bound {T}, rounding bit {R}, carry test {Rc}, final shift {K}")
+    if not found:
+        return
+    ctx.ob("R07.9", "window:final-shift", K == 64 - 53, f.loc(), f"the final shift drops {K} bits (64 - 53 significand bits)")
+    ctx.ob("R07.9", "window:rounding-bit", R == 1 << (K - 1) and Rc == R, f.loc(), f"rounding bit {R} = 1 << (K-1); the carry test after rounding compares with {Rc}")
+    ctx.ob("R07.9", "window:sticky-mask", M == (1 << (K - 2)) - 1, f.loc(),
+           f"sticky mask {M}: the {K - 2} bits that lie below the rounding bit whether or not the product still needs its one-bit normalisation" if M == (1 << (K - 2)) - 1 else
+           f"sticky mask {M} is not (1 << (K-2)) - 1 = {(1 << (K - 2)) - 1}: it includes the rounding bit of an un-normalised product, so an inexact single product is accepted")
+    ctx.ob("R07.9", "window:excludes-all-ones", T == M - 1, f.loc(),
+           f"bits - 1 < {T}: accepts 1 ..= mask-1, i.e. neither all zeros nor all ones" if T == M - 1 else
+           f"bits - 1 < {T} with mask {M}: the all-ones pattern (a pending carry from the low product) is accepted as exact")
+
+
 def r07_s(ctx):
     """shifts, table indices and unsigned differences of the conversion stay in range (interval analysis, shared with C01):
     a wrapped shift or an out-of-range table index yields a wrong float in release builds"""
@@ -589,4 +658,4 @@ def r07_s(ctx):
     ctx.include(c01.r01_13, "R07.S", ("sonic_number",), 15)
 
 
-RULES = [("R07.1", r07_1), ("R07.3", r07_3), ("R07.4", r07_4), ("R07.5", r07_5), ("R07.6", r07_6), ("R07.6b", r07_6b), ("R07.7", r07_7), ("R07.8", r07_8), ("R07.S", r07_s)]
+RULES = [("R07.1", r07_1), ("R07.3", r07_3), ("R07.4", r07_4), ("R07.5", r07_5), ("R07.6", r07_6), ("R07.6b", r07_6b), ("R07.7", r07_7), ("R07.8", r07_8), ("R07.9", r07_9), ("R07.S", r07_s)]
